@@ -1,6 +1,6 @@
 """Rule fragments used by more than one property (the construct is shared by the properties)."""
 import itertools
-from engine import ru, paths as pa, expr
+from engine import ru, paths as pa, expr, flow as fl
 
 FR = "h3::proto::frame::"
 
@@ -119,3 +119,76 @@ def header_payload_cursor(ctx, rule, key_prefix, hdr):
                 r = r[1]
             okr = okr and r[0] == "binop" and r[1].startswith("Add") and expr.fold(r[2], consts, lambda v: 5 if (v[0] == "param" and v[2] in ((".len",),)) else 2 if (v[0] == "param" and v[2] in ((".pos",),)) else None) == 3
         ctx.check(okr, rule, rm.key, "remaining() = (len - pos) + payload", "remaining() = %s" % [pa.vfmt(p.ret)[:80] for p in rps], "")
+
+
+def frame_type_table(ctx, rule):
+    """Frame::decode's type dispatch evaluated over the extracted conditions for a list of type values
+    (RFC 9114 Table 2, 7.2.8): known types, the four HTTP/2-reserved types (always UnsupportedFrame, whatever
+    the payload) and unknown/grease types (always UnknownFrame)."""
+    prog = ctx.prog
+    d = ru.need(ctx, rule, "h3::proto::frame::Frame::decode")
+    if d:
+        want = {0: "Ok(Frame::Data)", 1: "Ok(Frame::Headers)", 3: "Ok(Frame::CancelPush)", 4: "Ok(Frame::Settings)",
+                5: "Ok(Frame::PushPromise)", 7: "Ok(Frame::Goaway)", 13: "Ok(Frame::MaxPushId)", 0x41: "Ok(Frame::WebTransportStream)",
+                2: "Err(FrameError::UnsupportedFrame)", 6: "Err(FrameError::UnsupportedFrame)", 8: "Err(FrameError::UnsupportedFrame)",
+                9: "Err(FrameError::UnsupportedFrame)", 0x21: "Err(FrameError::UnknownFrame)", 0x40: "Err(FrameError::UnknownFrame)",
+                10: "Err(FrameError::UnknownFrame)", 0x2a1f: "Err(FrameError::UnknownFrame)"}
+        ps = [p for p in ru.all_paths(ctx, rule, d) if p.end in ("return",)]
+        consts = prog.consts
+
+        def sub_for(x):
+            def s(v):
+                # the decoded frame type: okval(map_err(FrameType::decode(..))) and its .0
+                ck, names = pa.head_call(v)
+                if v[0] in ("okval", "proj") and ck == "core::result::Result::map_err":
+                    inner = v
+                    while inner[0] in ("proj", "okval"):
+                        inner = inner[1]
+                    if inner[0] == "call" and inner[2] and inner[2][0][0] == "call" and inner[2][0][1] in ("h3::proto::frame::FrameType::decode", "<h3::proto::frame::FrameType as h3::proto::coding::Decode>::decode"):
+                        return x
+                if v[0] == "const" and isinstance(v[1], str) and v[1].startswith("h3::proto::frame::FrameType::"):
+                    return consts.get(v[1])
+                if v[0] == "call" and pa.short(v[1]) == "eq" and len(v[2]) == 2:
+                    a, b_ = s(v[2][0]), s(v[2][1])
+                    if a is not None and b_ is not None:
+                        return int(a == b_)
+                return None
+            return s
+        for ty, w in sorted(want.items()):
+            hit = expr.decide(ps, consts, sub_for(ty))
+            shapes = {p.ret_shape() for p in hit if p.ret_shape().startswith("Ok(") or p.ret_shape().startswith("Err(FrameError::Un")}
+            if w.startswith("Err(FrameError::Un"):
+                # reserved and unknown types: no other verdict may depend on the payload (only `need more bytes` may precede)
+                shapes = set()
+                for p in hit:
+                    sh = p.ret_shape()
+                    if sh == "Err(FrameError::Incomplete)":
+                        continue
+                    if sh.startswith("Residual"):
+                        es, _ = ru.residual_error_shapes(ctx, p)
+                        if es == {"FrameError::Incomplete"}:
+                            continue
+                        sh = "Err(%s)" % "|".join(sorted(es))
+                    shapes.add(sh)
+            ctx.check(shapes == {w}, rule, d.key, "type %#x -> %s" % (ty, w[3:-1] if w.startswith("Ok") else w[4:-1]),
+                      "frame type %#x decodes to %s, RFC 9114 Table 2 / 7.2.8 requires %s" % (ty, sorted(shapes), w), w)
+        # composition for reserved types is checked in C02-e (UnsupportedFrame -> ForbiddenFrame -> H3_FRAME_UNEXPECTED)
+
+
+
+def frame_stream_split(ctx, rule):
+    """FrameStream::split hands the frame reader's position (decoder state, DATA bytes still owed) to the receive half."""
+    prog = ctx.prog
+    b = ru.need(ctx, rule, "h3::frame::FrameStream::split")
+    if not b:
+        return
+    f = fl.Flow(b, prog)
+    recv = [s for bb, s in ru.aggregates(b, "h3::frame::FrameStream") if f.origin(ru.field_op(s, "stream"))[-1][-1:] == ("1",)]
+    ctx.check(len(recv) == 1, rule, b.key, "one receive half built directly", "split() does not build exactly one receive half as a FrameStream "
+              "aggregate fed from the inner split (found %d): the receive half must inherit decoder state and remaining_data" % len(recv), "")
+    for s in recv:
+        for fld in ("decoder", "remaining_data"):
+            o = f.origin(ru.field_op(s, fld))
+            ctx.check(o == ("param", 1, (fld,)), rule, b.key, "receive half keeps %s" % fld,
+                      "split() gives the receive half %s = %s instead of self.%s: splitting in the middle of a DATA frame makes the "
+                      "rest of the payload parse as frame headers" % (fld, fl.fmt(o), fld), fl.fmt(o), b.loc(s))
